@@ -4,6 +4,7 @@ package ch
 
 import (
 	"context"
+	"time"
 
 	"github.com/go-faster/errors"
 
@@ -27,6 +28,10 @@ func VerifC10Cancel() {
 	}
 	c := vNewClient(conn, v, proto.CompressionDisabled, compress.None, nil)
 	ctx := vNewCtx(verifIntRange("cancelgate", 0, verifParam("maxgate", 10)))
+	if verifChoice("deadline", 2) == 1 {
+		// a caller deadline far beyond the read timeout must not delay the reaction to a cancel
+		ctx.deadline, ctx.hasDL = time.Now().Add(time.Hour), true
+	}
 	err := c.Do(ctx, s.q)
 	if !ctx.cancelled {
 		verifNote("not-cancelled")
@@ -66,6 +71,9 @@ func VerifC10Cancel() {
 	}
 	verifAssert(boundary, "prefix-ends-at-a-flush-boundary")
 	verifAssert(verifLiveGoroutines() == 0, "no-goroutine-outlives-the-call")
+	// promptness on the harness' clock: a blocked read returns at its deadline, so the call must
+	// be back within the read timeout (1 s) plus a grace period after the cancellation
+	verifAssert(time.Since(ctx.cancelledAt) <= 3*time.Second, "returns-promptly-after-cancel")
 }
 
 // VerifC10Handshake: cancellation while the hello is being exchanged.
